@@ -4,10 +4,13 @@
 
    Part A: std::unique on a sorted vector, the grid of the generator, both
            constructors.
-   Part B: facts about the textbook recursion [B] of Spec_Gen.v alone
-           (local support, partition of unity).
    Part C: the generated splines: how many, their invariants, and that the
-           i-th one denotes B_{i,p} on every grid interval. *)
+           i-th one denotes B_{i,p} on every grid interval.
+   Part B (placed after C in this file): facts about the textbook recursion
+           [B] of Spec_Gen.v alone (local support, non-negativity, partition
+           of unity).
+   Finally: evaluation of a generated spline inside a grid interval, and a
+           non-vacuity example over the rationals. *)
 From Coq Require Import List Arith NArith ZArith Bool Lia ZifyBool ZifyN Field Ring.
 From BSpl Require Import ListAux Scalar Outcome Support Poly Spline Ops Generator
   Spec Spec_Ops Spec_Gen
@@ -657,7 +660,7 @@ Section GenFacts.
   Qed.
 
   (* the constructor taking the grid yields the same splines *)
-  Theorem gen_route2 (ks g : list F) p :
+  Theorem gen_route2 (ks : list F) p (g : list F) :
     nondecreasing ks -> two_distinct ks -> (nlen ks < 2 ^ 63)%N -> g = unique ks ->
     (do gn <- gen_ctor2 ks g; generate gn p) = generate_bsplines p ks.
   Proof.
@@ -665,7 +668,7 @@ Section GenFacts.
     rewrite (gen_ctor2_ok ks g Hn Hd Hl Hg). reflexivity.
   Qed.
 
-  Theorem gen_route2_mismatch (ks g : list F) p :
+  Theorem gen_route2_mismatch (ks : list F) p (g : list F) :
     nondecreasing ks -> two_distinct ks -> (nlen ks < 2 ^ 63)%N -> g <> unique ks ->
     (do gn <- gen_ctor2 ks g; generate gn p) = Throw INCONSISTENT_DATA.
   Proof.
